@@ -28,6 +28,12 @@ def gen(rnd, pp, rule_text, conserve, allow_interval=True):
     if rnd.random() < 0.25:
         pool = [s for s in anngen.STATICS_MASSY if "-term" not in s.lower()]
         A["static"] = [{"v": "s:" + s, "m": 1} for s in rnd.sample(pool, 1)]
+    if conserve and rnd.random() < 0.2:
+        # a global label together with a numeric rule on the most frequent residue (several targets in one protein)
+        seq = A["seq"]
+        top = max(sorted(set(seq)), key=seq.count)
+        A["isotope"] = [{"v": "s:" + rnd.choice(["13C", "15N"]), "m": 1}]
+        A["static"] = [{"v": "s:[" + rnd.choice(["+10.5", "1", "-2.25"]) + "]@" + top, "m": 1}]
     if allow_interval and not conserve and n >= 3 and rnd.random() < 0.3:
         # an interval that does not straddle a cut of this rule
         sites = set(pp.get_cleavage_sites("".join(A["seq"]), rule_text))
